@@ -1,1 +1,768 @@
-//! C13 harnesses (Engine K)
+//! C13 — a dynamic tick array behaves exactly like a fixed one (Engine K).
+//!
+//! L1 (fully symbolic): slot -> byte offset map, used length, bitmap sync, `get_tick` vs the encoding.
+//! L2 (positions concrete, contents symbolic): two single-implementation scenarios that were measured to finish; the
+//! three-way scenario driver `l2_scenario` below is kept as NOT-RUN work in progress (symex > 600 s, see props/c13.py OUTSIDE).
+use crate::common::*;
+use anchor_lang::Discriminator;
+use ::whirlpool::errors::ErrorCode;
+use ::whirlpool::manager::tick_array_manager::{calculate_modify_tick_array, TickArraySizeUpdate};
+use ::whirlpool::pinocchio::ported::manager_liquidity_manager::verif_pino_calculate_modify_tick_array;
+use ::whirlpool::pinocchio::state::whirlpool::tick_array::dynamic_tick_array::MemoryMappedDynamicTickArray;
+use ::whirlpool::pinocchio::state::whirlpool::tick_array::TickArray as PTickArray;
+use ::whirlpool::pinocchio::state::whirlpool::tick_array::TickUpdate as PTickUpdate;
+use ::whirlpool::pinocchio::state::whirlpool::{MemoryMappedPosition, MemoryMappedTick};
+use ::whirlpool::state::*;
+
+// ---------------------------------------------------------------------------------------------
+// §0 helpers
+
+/// account image of a full-size dynamic tick array (discriminator + 4 + 32 + 16 + 88·113)
+const DTA_LEN: usize = 10004;
+/// Anchor's loader maps `[u8; MAX_LEN]` at data[8..], i.e. it claims 8 bytes beyond a MAX_LEN account (on chain: the
+/// runtime's realloc padding). Every harness allocates the whole claimed range.
+const BUF_LEN: usize = DTA_LEN + 8;
+/// offset of the tick data in the account image
+const TICKS: usize = 60;
+const BITMAP: usize = 44;
+
+fn pino(b: &[u8; BUF_LEN]) -> &MemoryMappedDynamicTickArray {
+    assert!(core::mem::size_of::<MemoryMappedDynamicTickArray>() == DTA_LEN && DynamicTickArray::MAX_LEN == DTA_LEN);
+    unsafe { &*(b.as_ptr() as *const MemoryMappedDynamicTickArray) }
+}
+fn pino_mut(b: &mut [u8; BUF_LEN]) -> &mut MemoryMappedDynamicTickArray {
+    unsafe { &mut *(b.as_mut_ptr() as *mut MemoryMappedDynamicTickArray) }
+}
+fn anchor(b: &[u8; BUF_LEN]) -> &DynamicTickArrayLoader {
+    DynamicTickArrayLoader::load(&b[8..])
+}
+fn anchor_mut(b: &mut [u8; BUF_LEN]) -> &mut DynamicTickArrayLoader {
+    DynamicTickArrayLoader::load_mut(&mut b[8..])
+}
+
+/// reference popcount of the bits below `slot`, one bit at a time (no `count_ones`, no mask arithmetic)
+fn ref_prefix_count(bitmap: u128, slot: usize) -> usize {
+    let mut n = 0usize;
+    let mut i = 0usize;
+    while i < 88 {
+        if i < slot && (bitmap >> i) & 1 == 1 {
+            n += 1;
+        }
+        i += 1;
+    }
+    n
+}
+/// the encoding's slot -> byte offset map: every earlier initialised slot takes 113 bytes, every other one 1
+fn ref_byte_offset(bitmap: u128, slot: usize) -> usize {
+    let n = ref_prefix_count(bitmap, slot);
+    113 * n + (slot - n)
+}
+
+fn any_tick_updates() -> (TickUpdate, PTickUpdate) {
+    let a = TickUpdate {
+        initialized: kani::any(),
+        liquidity_net: kani::any(),
+        liquidity_gross: kani::any(),
+        fee_growth_outside_a: kani::any(),
+        fee_growth_outside_b: kani::any(),
+        reward_growths_outside: [kani::any(), kani::any(), kani::any()],
+    };
+    let p = PTickUpdate {
+        initialized: a.initialized,
+        liquidity_net: a.liquidity_net,
+        liquidity_gross: a.liquidity_gross,
+        fee_growth_outside_a: a.fee_growth_outside_a,
+        fee_growth_outside_b: a.fee_growth_outside_b,
+        reward_growths_outside: a.reward_growths_outside,
+    };
+    (a, p)
+}
+
+fn set_bitmap(b: &mut [u8; BUF_LEN], bitmap: u128) {
+    let x = bitmap.to_le_bytes();
+    let mut i = 0;
+    while i < 16 {
+        b[BITMAP + i] = x[i];
+        i += 1;
+    }
+}
+
+// ---------------------------------------------------------------------------------------------
+// §1 L1 — offset arithmetic, fully symbolic
+
+/// L1 byte_offset: for EVERY 128-bit bitmap and every slot 0..=88, Anchor `byte_offset` == Pinocchio `byte_offset`
+/// == 113·popcount(bits below slot) + (slot − popcount) computed by a bit-by-bit reference; slot 88 gives the end of
+/// the encoding, i.e. used length == 148 + 112·popcount(bitmap) for bitmaps < 2^88; a negative slot is TickNotFound (Anchor)
+// @verif prop=C13 tier=quick timeout=300
+#[kani::proof]
+#[kani::unwind(90)]
+#[kani::stub(alloc::fmt::format, stub_format)]
+#[kani::stub(<anchor_lang::error::Error as core::convert::From<::whirlpool::errors::ErrorCode>>::from, stub_err_from_code)]
+#[kani::stub(<::whirlpool::pinocchio::errors::UnifiedError as core::convert::From<::whirlpool::errors::ErrorCode>>::from, stub_unified_from_code)]
+fn c13_l1_byte_offset() {
+    let bitmap: u128 = kani::any();
+    let slot: usize = kani::any();
+    let neg: isize = kani::any();
+    kani::assume(slot <= 88);
+    kani::assume(neg < 0);
+    let mut b: Box<[u8; BUF_LEN]> = Box::new([0u8; BUF_LEN]);
+    set_bitmap(&mut b, bitmap);
+    let a = anchor(&b);
+    let p = pino(&b);
+    assert!(a.verif_tick_bitmap() == bitmap && p.verif_tick_bitmap() == bitmap, "bitmap accessors read bytes 44..60");
+    let ao = a.verif_byte_offset(slot as isize);
+    let po = p.verif_byte_offset(slot);
+    let e = ref_byte_offset(bitmap, slot);
+    match (&ao, &po) {
+        (Ok(x), Ok(y)) => {
+            assert!(*x == e, "Anchor byte_offset == 113*popcount + rest");
+            assert!(*y == e, "Pinocchio byte_offset == 113*popcount + rest");
+        }
+        _ => assert!(false, "byte_offset is infallible for 0 <= slot <= 88"),
+    }
+    if slot == 88 && bitmap >> 88 == 0 {
+        // used length of the account = header (8 + 52) + end of the encoding
+        let pc = ref_prefix_count(bitmap, 88);
+        assert!(TICKS + e == 148 + 112 * pc, "used length == 148 + 112*popcount");
+        assert!(148 + 112 * pc <= DynamicTickArray::MAX_LEN && DynamicTickArray::MIN_LEN == 148);
+        kani::cover!(pc == 88, "all slots initialised: MAX_LEN");
+        kani::cover!(pc == 0, "empty array: MIN_LEN");
+    }
+    let an = a.verif_byte_offset(neg);
+    assert!(matches!(&an, Err(x) if acode(x) == ecode(ErrorCode::TickNotFound)), "negative slot");
+    kani::cover!(slot == 87 && e == 87 * 113, "all earlier slots initialised");
+    kani::cover!(slot == 65 && e == 65 + 112 * 2 && (bitmap >> 63) & 3 == 3, "popcount across the 64-bit word boundary");
+    core::mem::forget(ao);
+    core::mem::forget(po);
+    core::mem::forget(an);
+}
+
+// ---------------------------------------------------------------------------------------------
+// §2 L2 — data movement: positions concrete, contents symbolic
+
+/// Account image as a struct whose first member is the 60-byte header. CBMC splits small array members into one SSA
+/// symbol per element (field sensitivity, <= 64 elements), so the bitmap stays a constant during symbolic execution
+/// and every byte offset the code computes from it is a constant too. (With a flat `[u8; 10012]` the bitmap read back
+/// from the buffer is symbolic for the symbolic executor: 118 M clauses / 15 GB for ONE initialisation; with this
+/// layout 0.2 M clauses.) Same bytes, same addresses: only the harness-side type of the allocation differs.
+#[repr(C)]
+struct Img {
+    hdr: [u8; TICKS],
+    ticks: [u8; BUF_LEN - TICKS],
+}
+fn tk(b: &Img) -> &[u8] {
+    unsafe { core::slice::from_raw_parts((b as *const Img as *const u8).add(TICKS), BUF_LEN - TICKS) }
+}
+fn img_new(start: i32, key: &[u8; 32]) -> Img {
+    assert!(core::mem::size_of::<Img>() >= BUF_LEN);
+    let mut b = Img { hdr: [0u8; TICKS], ticks: [0u8; BUF_LEN - TICKS] };
+    let d = DynamicTickArray::DISCRIMINATOR;
+    let st = start.to_le_bytes();
+    let mut i = 0;
+    while i < 8 { b.hdr[i] = d[i]; i += 1; }
+    let mut i = 0;
+    while i < 4 { b.hdr[8 + i] = st[i]; i += 1; }
+    let mut i = 0;
+    while i < 32 { b.hdr[12 + i] = key[i]; i += 1; }
+    b
+}
+fn img_anchor(b: &Img) -> &DynamicTickArrayLoader {
+    unsafe { &*((b as *const Img as *const u8).add(8) as *const DynamicTickArrayLoader) }
+}
+fn img_anchor_mut(b: &mut Img) -> &mut DynamicTickArrayLoader {
+    unsafe { &mut *((b as *mut Img as *mut u8).add(8) as *mut DynamicTickArrayLoader) }
+}
+fn img_pino(b: &Img) -> &MemoryMappedDynamicTickArray {
+    unsafe { &*(b as *const Img as *const MemoryMappedDynamicTickArray) }
+}
+fn img_pino_mut(b: &mut Img) -> &mut MemoryMappedDynamicTickArray {
+    unsafe { &mut *(b as *mut Img as *mut MemoryMappedDynamicTickArray) }
+}
+
+/// symbolic contents, concrete `initialized` flag
+fn any_update(flag: bool) -> (TickUpdate, PTickUpdate) {
+    let (mut a, mut p) = any_tick_updates();
+    a.initialized = flag;
+    p.initialized = flag;
+    (a, p)
+}
+fn expect_of(u: &TickUpdate) -> Tick {
+    // what a slot holds after `update_tick(u)`: the update itself if it initialises, the default tick otherwise
+    // (a dynamic array cannot store anything for an uninitialised slot)
+    if u.initialized {
+        Tick {
+            initialized: true,
+            liquidity_net: u.liquidity_net,
+            liquidity_gross: u.liquidity_gross,
+            fee_growth_outside_a: u.fee_growth_outside_a,
+            fee_growth_outside_b: u.fee_growth_outside_b,
+            reward_growths_outside: u.reward_growths_outside,
+        }
+    } else {
+        Tick::default()
+    }
+}
+fn same3(a: &Tick, p: &MemoryMappedTick, f: &Tick) -> bool {
+    let pr = p.reward_growths_outside();
+    let (ar, fr) = ({ a.reward_growths_outside }, { f.reward_growths_outside });
+    a.initialized == f.initialized
+        && p.initialized() == f.initialized
+        && { a.liquidity_net } == { f.liquidity_net }
+        && p.liquidity_net() == { f.liquidity_net }
+        && { a.liquidity_gross } == { f.liquidity_gross }
+        && p.liquidity_gross() == { f.liquidity_gross }
+        && { a.fee_growth_outside_a } == { f.fee_growth_outside_a }
+        && p.fee_growth_outside_a() == { f.fee_growth_outside_a }
+        && { a.fee_growth_outside_b } == { f.fee_growth_outside_b }
+        && p.fee_growth_outside_b() == { f.fee_growth_outside_b }
+        && ar[0] == fr[0] && ar[1] == fr[1] && ar[2] == fr[2]
+        && pr[0] == fr[0] && pr[1] == fr[1] && pr[2] == fr[2]
+}
+fn same_tick(a: &Tick, f: &Tick) -> bool {
+    let (ar, fr) = ({ a.reward_growths_outside }, { f.reward_growths_outside });
+    a.initialized == f.initialized
+        && { a.liquidity_net } == { f.liquidity_net }
+        && { a.liquidity_gross } == { f.liquidity_gross }
+        && { a.fee_growth_outside_a } == { f.fee_growth_outside_a }
+        && { a.fee_growth_outside_b } == { f.fee_growth_outside_b }
+        && ar[0] == fr[0] && ar[1] == fr[1] && ar[2] == fr[2]
+}
+
+/// `<&[u8] as io::Read>::read_exact` without the short-read error: that the input is long enough is ASSERTED
+fn stub_slice_read_exact<'a>(this: &mut &'a [u8], buf: &mut [u8]) -> std::io::Result<()>
+where
+    'a: 'a,
+{
+    let n = buf.len();
+    assert!(n <= this.len(), "read_exact model: enough input");
+    let (a, b) = this.split_at(n);
+    let mut i = 0;
+    while i < n {
+        buf[i] = a[i];
+        i += 1;
+    }
+    *this = b;
+    Ok(())
+}
+
+/// all bytes of b[from..to] are zero (16 bytes per step: the loop is unrolled by the symbolic executor)
+fn assert_zero(b: &[u8], from: usize, to: usize) {
+    assert!(from <= to && to <= b.len());
+    let p = b.as_ptr();
+    let mut i = from;
+    while i + 16 <= to {
+        let w = unsafe { core::ptr::read_unaligned(p.add(i) as *const u128) };
+        assert!(w == 0, "zero tail");
+        i += 16;
+    }
+    while i < to {
+        assert!(b[i] == 0, "zero tail");
+        i += 1;
+    }
+}
+
+// Reduced model of `<[u8]>::rotate_right / rotate_left` (std's rotate is not the code under test; what it is applied to —
+// the slice start, its length and the distance — comes from the code under test and is honoured). The model is exact under
+// its precondition, which it ASSERTS on every call: every byte of the slice from index MODEL_USED on is zero. MODEL_USED is
+// set by the harness before each `update_tick` (used length of the account minus the offset of the slot); a wrong value can
+// only make the assertion fail, never hide a difference.
+//   rotate_right(k): [x_0 .. x_{u-1}, 0 ...] -> [0 (k times), x_0 .. x_{u-1}, 0 ...]          (needs u + k <= n)
+//   rotate_left(k):  [x_0 .. x_{u-1}, 0 ...] -> [x_k .. x_{u-1}, 0 ..., x_0 .. x_{k-1}]       (needs k <= u, u <= n - k)
+static mut MODEL_USED: usize = 0;
+fn model_rotate_right<T>(s: &mut [T], k: usize) {
+    assert!(core::mem::size_of::<T>() == 1);
+    let n = s.len();
+    let used = unsafe { MODEL_USED };
+    assert!(k <= n && used + k <= n, "rotate model: bounds");
+    let b: &mut [u8] = unsafe { core::slice::from_raw_parts_mut(s.as_mut_ptr() as *mut u8, n) };
+    assert_zero(b, used, n);
+    let mut i = used;
+    while i > 0 {
+        i -= 1;
+        b[i + k] = b[i];
+    }
+    let mut i = 0;
+    while i < k && i < used {
+        b[i] = 0;
+        i += 1;
+    }
+}
+fn model_rotate_left<T>(s: &mut [T], k: usize) {
+    assert!(core::mem::size_of::<T>() == 1);
+    let n = s.len();
+    let used = unsafe { MODEL_USED };
+    assert!(k <= used && used + k <= n && k <= 128, "rotate model: bounds");
+    let b: &mut [u8] = unsafe { core::slice::from_raw_parts_mut(s.as_mut_ptr() as *mut u8, n) };
+    assert_zero(b, used, n);
+    let mut tmp = [0u8; 128];
+    let mut i = 0;
+    while i < k {
+        tmp[i] = b[i];
+        i += 1;
+    }
+    let mut i = k;
+    while i < used {
+        b[i - k] = b[i];
+        i += 1;
+    }
+    let mut i = used - k;
+    while i < used {
+        b[i] = 0;
+        i += 1;
+    }
+    let mut i = 0;
+    while i < k {
+        b[n - k + i] = tmp[i];
+        i += 1;
+    }
+}
+/// used length of the tick area for an initialised set
+fn ref_used(set: u128) -> usize {
+    ref_byte_offset(set, 88)
+}
+
+/// representative slots: first, second, around the 64-bit bitmap word boundary, last two
+const REP: [usize; 7] = [0, 1, 63, 64, 65, 86, 87];
+const MAX_PRE: usize = 4;
+
+/// One scenario. `pre`: slots initialised (in this order) by real `update_tick` calls on the three arrays;
+/// then ONE `update_tick(slot)` whose `initialized` flag is `flag` (so: initialise / modify / de-initialise / no-op
+/// according to `slot in pre` and `flag`), all tick contents symbolic. Afterwards: results agree (Ok / same error code),
+/// `get_tick` agrees three-way and with the abstract map on every representative slot, both bitmaps == initialised set,
+/// header untouched, encoding well formed, Anchor image == Pinocchio image byte for byte.
+fn l2_scenario(pre: &[usize], slot: usize, flag: bool, start: i32, ts: u16) {
+    // ---- inputs
+    let key: [u8; 32] = kani::any();
+    let mut ups_a: [TickUpdate; MAX_PRE] = [TickUpdate::default(), TickUpdate::default(), TickUpdate::default(), TickUpdate::default()];
+    let mut ups_p: [PTickUpdate; MAX_PRE] = [PTickUpdate::default(), PTickUpdate::default(), PTickUpdate::default(), PTickUpdate::default()];
+    assert!(pre.len() <= MAX_PRE);
+    let mut k = 0;
+    while k < pre.len() {
+        let (a, p) = any_update(true);
+        ups_a[k] = a;
+        ups_p[k] = p;
+        k += 1;
+    }
+    let (op_a, op_p) = any_update(flag);
+    let tsi = ts as i32;
+    let idx = |s: usize| start + (s as i32) * tsi;
+
+    // ---- the three arrays
+    let mut ia = img_new(start, &key);
+    let mut ip = img_new(start, &key);
+    let mut fx: Box<FixedTickArray> = Box::new(FixedTickArray::default());
+    fx.start_tick_index = start;
+
+    // ---- pre-state by real calls
+    let mut cur: u128 = 0;
+    let mut k = 0;
+    while k < pre.len() {
+        let t = idx(pre[k]);
+        unsafe { MODEL_USED = ref_used(cur) - ref_byte_offset(cur, pre[k]); }
+        cur |= 1u128 << pre[k];
+        let ra = img_anchor_mut(&mut ia).update_tick(t, ts, &ups_a[k]);
+        let rp = img_pino_mut(&mut ip).update_tick(t, ts, &ups_p[k]);
+        let rf = fx.update_tick(t, ts, &ups_a[k]);
+        assert!(ra.is_ok() && rp.is_ok() && rf.is_ok(), "pre-state: every slot of `pre` is usable");
+        core::mem::forget(ra);
+        core::mem::forget(rp);
+        core::mem::forget(rf);
+        k += 1;
+    }
+
+    // ---- the operation
+    let t = idx(slot);
+    unsafe { MODEL_USED = ref_used(cur) - ref_byte_offset(cur, slot); }
+    let ra = img_anchor_mut(&mut ia).update_tick(t, ts, &op_a);
+    let rp = img_pino_mut(&mut ip).update_tick(t, ts, &op_p);
+    let rf = fx.update_tick(t, ts, &op_a);
+    let usable = t >= MIN_TICK_INDEX && t <= MAX_TICK_INDEX;
+    match (&ra, &rp, &rf) {
+        (Ok(()), Ok(()), Ok(())) => assert!(usable, "update accepted only for a usable tick"),
+        (Err(x), Err(y), Err(z)) => {
+            assert!(acode(x) == acode(z) && ucode(y) == acode(z), "same error code");
+            assert!(!usable && acode(z) == ecode(ErrorCode::TickNotFound));
+        }
+        _ => assert!(false, "outcome kind differs (Anchor dynamic / Pinocchio dynamic / fixed)"),
+    }
+    let applied = ra.is_ok();
+    kani::cover!(applied, "operation applied");
+
+    // ---- expected initialised set and abstract map
+    let mut set: u128 = 0;
+    let mut k = 0;
+    while k < pre.len() {
+        set |= 1u128 << pre[k];
+        k += 1;
+    }
+    if applied {
+        if flag { set |= 1u128 << slot; } else { set &= !(1u128 << slot); }
+    }
+
+    // ---- queries on the representative slots
+    let mut q = 0;
+    while q < REP.len() {
+        let s = REP[q];
+        let ti = idx(s);
+        let ga = img_anchor(&ia).get_tick(ti, ts);
+        let gp = img_pino(&ip).get_tick(ti, ts);
+        let gf = fx.get_tick(ti, ts);
+        match (&ga, &gp, &gf) {
+            (Ok(a), Ok(p), Ok(f)) => {
+                assert!(same3(a, p, f), "get_tick: Anchor dynamic == Pinocchio dynamic == fixed");
+                // abstract map
+                let mut e = Tick::default();
+                let mut k = 0;
+                while k < pre.len() {
+                    if pre[k] == s { e = expect_of(&ups_a[k]); }
+                    k += 1;
+                }
+                if applied && s == slot { e = expect_of(&op_a); }
+                // a fixed array keeps the payload of an update with initialized == false, a dynamic one cannot:
+                // the (de-)initialising updates the program produces carry the default payload (see OUTSIDE)
+                assert!(same_tick(a, &e), "get_tick == abstract map");
+                assert!(a.initialized == ((set >> s) & 1 == 1));
+            }
+            (Err(x), Err(y), Err(z)) => {
+                assert!(acode(x) == acode(z) && ucode(y) == acode(z), "get_tick: same error code");
+                assert!(ti < MIN_TICK_INDEX || ti > MAX_TICK_INDEX);
+            }
+            _ => assert!(false, "get_tick outcome kind differs"),
+        }
+        core::mem::forget(ga);
+        core::mem::forget(gp);
+        core::mem::forget(gf);
+        q += 1;
+    }
+
+    // ---- header: bitmap == initialised set (both accessors), start index and key untouched
+    assert!(img_anchor(&ia).verif_tick_bitmap() == set, "Anchor bitmap == initialised set");
+    assert!(img_pino(&ip).verif_tick_bitmap() == set, "Pinocchio bitmap == initialised set");
+    assert!(TickArrayType::start_tick_index(img_anchor(&ia)) == start && PTickArray::start_tick_index(img_pino(&ip)) == start);
+    let mut i = 0;
+    while i < 44 {
+        assert!(ia.hdr[i] == ip.hdr[i] && (i < 12 || ia.hdr[i] == key[i - 12]), "header bytes 0..44 untouched");
+        i += 1;
+    }
+
+    // ---- encoding: tag 1 + 112 bytes per initialised slot, a single 0 byte otherwise, in slot order
+    let mut o = 0usize;
+    let mut s = 0usize;
+    while s < 88 {
+        if (set >> s) & 1 == 1 {
+            assert!(tk(&ia)[o] == 1 && tk(&ip)[o] == 1, "tag byte of an initialised slot");
+            o += 113;
+        } else {
+            assert!(tk(&ia)[o] == 0 && tk(&ip)[o] == 0, "an uninitialised slot is a single zero byte");
+            o += 1;
+        }
+        s += 1;
+    }
+    let used = TICKS + o;
+    assert!(used == 148 + 112 * (set.count_ones() as usize), "used length");
+    // ---- Anchor image == Pinocchio image on the used part; everything behind it is zero. After a de-initialisation
+    // `rotate_left` parks the removed 112 bytes at the very end of the 9 952-byte tick area of the loader type
+    // (bytes 9 900..10 012 of the image, behind the account's data unless the array was nearly full): excluded.
+    let deinit = applied && !flag && pre.contains(&slot);
+    let end = if deinit { BUF_LEN - 112 } else { BUF_LEN };
+    let mut i = 0;
+    while i < o {
+        assert!(tk(&ia)[i] == tk(&ip)[i], "Anchor image == Pinocchio image (used part)");
+        i += 1;
+    }
+    assert_zero(tk(&ia), o, end - TICKS);
+    assert_zero(tk(&ip), o, end - TICKS);
+    core::mem::forget(ra);
+    core::mem::forget(rp);
+    core::mem::forget(rf);
+}
+
+
+fn rd_u128(b: &[u8], o: usize) -> u128 {
+    let mut x = [0u8; 16];
+    let mut i = 0;
+    while i < 16 {
+        x[i] = b[o + i];
+        i += 1;
+    }
+    u128::from_le_bytes(x)
+}
+
+/// L1 codec: Borsh `DynamicTick::deserialize` on ALL 113-byte inputs == the encoding (tag 0: default tick, 1 byte consumed;
+/// tag 1: seven little-endian 16-byte fields, 113 bytes consumed; any other tag: error)
+// @verif prop=C13 tier=quick timeout=300
+#[kani::proof]
+#[kani::unwind(20)]
+#[kani::stub(alloc::fmt::format, stub_format)]
+#[kani::stub(<anchor_lang::error::Error as core::convert::From<std::io::Error>>::from, stub_err_from_io)]
+#[kani::stub(<anchor_lang::error::Error as core::convert::From<::whirlpool::errors::ErrorCode>>::from, stub_err_from_code)]
+fn c13_l1_codec() {
+    use anchor_lang::AnchorDeserialize;
+    let b: [u8; 113] = kani::any();
+    let mut sl: &[u8] = &b[..];
+    let r = DynamicTick::deserialize(&mut sl);
+    kani::cover!(matches!(&r, Ok(DynamicTick::Initialized(_))), "initialised tick decoded");
+    match &r {
+        Ok(DynamicTick::Uninitialized) => assert!(b[0] == 0 && sl.len() == 112),
+        Ok(DynamicTick::Initialized(d)) => {
+            assert!(b[0] == 1 && sl.len() == 0);
+            assert!(d.liquidity_net == rd_u128(&b, 1) as i128);
+            assert!(d.liquidity_gross == rd_u128(&b, 17));
+            assert!(d.fee_growth_outside_a == rd_u128(&b, 33));
+            assert!(d.fee_growth_outside_b == rd_u128(&b, 49));
+            assert!(d.reward_growths_outside[0] == rd_u128(&b, 65));
+            assert!(d.reward_growths_outside[1] == rd_u128(&b, 81));
+            assert!(d.reward_growths_outside[2] == rd_u128(&b, 97));
+        }
+        Err(_) => assert!(b[0] > 1),
+    }
+    core::mem::forget(r);
+}
+
+/// L2 (Anchor dynamic, reduced rotate model): empty array, initialise slot 63 with symbolic contents, then `get_tick(63)`
+/// returns exactly the update and the bitmap is {63}
+// @verif prop=C13 tier=quick timeout=300
+#[kani::proof]
+#[kani::unwind(800)]
+#[kani::stub(<[u8]>::rotate_right, model_rotate_right)]
+#[kani::stub(<[u8]>::rotate_left, model_rotate_left)]
+#[kani::stub(alloc::fmt::format, stub_format)]
+#[kani::stub(<anchor_lang::error::Error as core::convert::From<std::io::Error>>::from, stub_err_from_io)]
+#[kani::stub(<anchor_lang::error::Error as core::convert::From<::whirlpool::errors::ErrorCode>>::from, stub_err_from_code)]
+fn c13_l2_anchor_init_slot63() {
+    let (u, _pu) = any_update(true);
+    let key = [0u8; 32];
+    let mut b = img_new(0, &key);
+    unsafe { MODEL_USED = 88 - 63; }
+    let r = img_anchor_mut(&mut b).update_tick(63, 1, &u);
+    assert!(r.is_ok());
+    let g = img_anchor(&b).get_tick(63, 1);
+    kani::cover!(g.is_ok(), "tick read back");
+    assert!(matches!(&g, Ok(t) if same_tick(t, &expect_of(&u))), "get_tick returns the update");
+    assert!(img_anchor(&b).verif_tick_bitmap() == 1u128 << 63, "bitmap == {63}");
+    core::mem::forget(r);
+    core::mem::forget(g);
+}
+
+/// L2 (Pinocchio dynamic, reduced rotate model): empty array, one `update_tick(63)` with symbolic contents and symbolic
+/// `initialized` flag; `get_tick(63)` returns the update (or the zero tick), slot 64 stays uninitialised
+// @verif prop=C13 tier=quick timeout=300
+#[kani::proof]
+#[kani::unwind(800)]
+#[kani::stub(<[u8]>::rotate_right, model_rotate_right)]
+#[kani::stub(<[u8]>::rotate_left, model_rotate_left)]
+#[kani::stub(alloc::fmt::format, stub_format)]
+#[kani::stub(<::whirlpool::pinocchio::errors::UnifiedError as core::convert::From<::whirlpool::errors::ErrorCode>>::from, stub_unified_from_code)]
+fn c13_l2_pino_update_slot63() {
+    let (_u, u) = any_tick_updates();
+    let key = [0u8; 32];
+    let mut b = img_new(0, &key);
+    unsafe { MODEL_USED = 88 - 63; }
+    let r = img_pino_mut(&mut b).update_tick(63, 1, &u);
+    assert!(r.is_ok());
+    let p = img_pino(&b);
+    match p.get_tick(63, 1) {
+        Ok(t) => {
+            kani::cover!(t.initialized(), "initialised");
+            assert!(t.initialized() == u.initialized);
+            assert!(t.liquidity_net() == if u.initialized { u.liquidity_net } else { 0 });
+            assert!(t.liquidity_gross() == if u.initialized { u.liquidity_gross } else { 0 });
+            assert!(t.reward_growths_outside()[2] == if u.initialized { u.reward_growths_outside[2] } else { 0 });
+        }
+        Err(_) => assert!(false, "slot 63 readable"),
+    }
+    match p.get_tick(64, 1) {
+        Ok(t) => assert!(!t.initialized()),
+        Err(_) => assert!(false, "slot 64 readable"),
+    }
+    assert!(p.verif_tick_bitmap() == if u.initialized { 1u128 << 63 } else { 0 });
+    core::mem::forget(r);
+}
+
+fn pino_tick_is(t: &MemoryMappedTick, u: &PTickUpdate) -> bool {
+    let r = t.reward_growths_outside();
+    t.initialized() == u.initialized
+        && t.liquidity_net() == u.liquidity_net
+        && t.liquidity_gross() == u.liquidity_gross
+        && t.fee_growth_outside_a() == u.fee_growth_outside_a
+        && t.fee_growth_outside_b() == u.fee_growth_outside_b
+        && r[0] == u.reward_growths_outside[0] && r[1] == u.reward_growths_outside[1] && r[2] == u.reward_growths_outside[2]
+}
+fn pino_tick_is_empty(t: &MemoryMappedTick) -> bool {
+    let r = t.reward_growths_outside();
+    !t.initialized() && t.liquidity_net() == 0 && t.liquidity_gross() == 0 && t.fee_growth_outside_a() == 0
+        && t.fee_growth_outside_b() == 0 && r[0] == 0 && r[1] == 0 && r[2] == 0
+}
+
+/// Three-operation history on the Anchor dynamic array (start 0, spacing 1; positions concrete, all contents symbolic):
+/// initialise `first`, initialise `second`, de-initialise `second`. After the second and after the third operation:
+/// `get_tick` of both slots (and of an untouched neighbour) returns what the abstract map says, the bitmap is the
+/// initialised set, the encoding walk (tag 1 + 112 bytes per initialised slot, one 0 byte otherwise, in slot order)
+/// holds, so the used length is 148 + 112 x popcount. With `second < first` the rotate moves an initialised slot's bytes.
+fn seq_anchor(first: usize, second: usize) {
+    let (u1, _) = any_update(true);
+    let (u2, _) = any_update(true);
+    let (u3, _) = any_update(false);
+    let key = [0u8; 32];
+    let mut b = img_new(0, &key);
+    let mut cur: u128 = 0;
+    unsafe { MODEL_USED = ref_used(cur) - ref_byte_offset(cur, first); }
+    let r1 = img_anchor_mut(&mut b).update_tick(first as i32, 1, &u1);
+    assert!(r1.is_ok());
+    cur |= 1u128 << first;
+    unsafe { MODEL_USED = ref_used(cur) - ref_byte_offset(cur, second); }
+    let r2 = img_anchor_mut(&mut b).update_tick(second as i32, 1, &u2);
+    assert!(r2.is_ok());
+    cur |= 1u128 << second;
+    {
+        let a = img_anchor(&b);
+        let (g1, g2) = (a.get_tick(first as i32, 1), a.get_tick(second as i32, 1));
+        kani::cover!(g1.is_ok() && g2.is_ok(), "both ticks read back");
+        assert!(matches!(&g1, Ok(t) if same_tick(t, &expect_of(&u1))), "earlier slot keeps its contents after the insertion");
+        assert!(matches!(&g2, Ok(t) if same_tick(t, &expect_of(&u2))), "inserted slot holds the update");
+        let g3 = a.get_tick((first.max(second) + 1) as i32, 1);
+        assert!(matches!(&g3, Ok(t) if same_tick(t, &Tick::default())), "neighbour above stays uninitialised");
+        assert!(a.verif_tick_bitmap() == cur, "bitmap == initialised set");
+        core::mem::forget(g1); core::mem::forget(g2); core::mem::forget(g3);
+    }
+    walk_encoding(tk(&b), cur);
+    unsafe { MODEL_USED = ref_used(cur) - ref_byte_offset(cur, second); }
+    let r3 = img_anchor_mut(&mut b).update_tick(second as i32, 1, &u3);
+    assert!(r3.is_ok());
+    cur &= !(1u128 << second);
+    {
+        let a = img_anchor(&b);
+        let (g1, g2) = (a.get_tick(first as i32, 1), a.get_tick(second as i32, 1));
+        assert!(matches!(&g1, Ok(t) if same_tick(t, &expect_of(&u1))), "remaining slot keeps its contents after the removal");
+        assert!(matches!(&g2, Ok(t) if same_tick(t, &Tick::default())), "removed slot reads as the default tick");
+        assert!(a.verif_tick_bitmap() == cur, "bitmap == initialised set");
+        core::mem::forget(g1); core::mem::forget(g2);
+    }
+    walk_encoding(tk(&b), cur);
+    core::mem::forget(r1); core::mem::forget(r2); core::mem::forget(r3);
+}
+
+/// the same history through the Pinocchio accessor
+fn seq_pino(first: usize, second: usize) {
+    let (_, u1) = any_update(true);
+    let (_, u2) = any_update(true);
+    let (_, u3) = any_update(false);
+    let key = [0u8; 32];
+    let mut b = img_new(0, &key);
+    let mut cur: u128 = 0;
+    unsafe { MODEL_USED = ref_used(cur) - ref_byte_offset(cur, first); }
+    let r1 = img_pino_mut(&mut b).update_tick(first as i32, 1, &u1);
+    assert!(r1.is_ok());
+    cur |= 1u128 << first;
+    unsafe { MODEL_USED = ref_used(cur) - ref_byte_offset(cur, second); }
+    let r2 = img_pino_mut(&mut b).update_tick(second as i32, 1, &u2);
+    assert!(r2.is_ok());
+    cur |= 1u128 << second;
+    {
+        let p = img_pino(&b);
+        let ok1 = matches!(p.get_tick(first as i32, 1), Ok(t) if pino_tick_is(t, &u1));
+        let ok2 = matches!(p.get_tick(second as i32, 1), Ok(t) if pino_tick_is(t, &u2));
+        let ok3 = matches!(p.get_tick((first.max(second) + 1) as i32, 1), Ok(t) if pino_tick_is_empty(t));
+        kani::cover!(ok1 && ok2, "both ticks read back");
+        assert!(ok1, "earlier slot keeps its contents after the insertion");
+        assert!(ok2, "inserted slot holds the update");
+        assert!(ok3, "neighbour above stays uninitialised");
+        assert!(p.verif_tick_bitmap() == cur, "bitmap == initialised set");
+    }
+    walk_encoding(tk(&b), cur);
+    unsafe { MODEL_USED = ref_used(cur) - ref_byte_offset(cur, second); }
+    let r3 = img_pino_mut(&mut b).update_tick(second as i32, 1, &u3);
+    assert!(r3.is_ok());
+    cur &= !(1u128 << second);
+    {
+        let p = img_pino(&b);
+        assert!(matches!(p.get_tick(first as i32, 1), Ok(t) if pino_tick_is(t, &u1)), "remaining slot keeps its contents after the removal");
+        assert!(matches!(p.get_tick(second as i32, 1), Ok(t) if pino_tick_is_empty(t)), "removed slot reads as the empty tick");
+        assert!(p.verif_tick_bitmap() == cur, "bitmap == initialised set");
+    }
+    walk_encoding(tk(&b), cur);
+    core::mem::forget(r1); core::mem::forget(r2); core::mem::forget(r3);
+}
+
+/// encoding well formed for the initialised set `set`: tag 1 + 112 bytes per initialised slot, a single 0 byte otherwise, in slot order
+fn walk_encoding(t: &[u8], set: u128) {
+    let mut o = 0usize;
+    let mut s = 0usize;
+    while s < 88 {
+        if (set >> s) & 1 == 1 {
+            assert!(t[o] == 1, "tag byte of an initialised slot at its well-formed offset");
+            o += 113;
+        } else {
+            assert!(t[o] == 0, "an uninitialised slot is a single zero byte at its well-formed offset");
+            o += 1;
+        }
+        s += 1;
+    }
+    assert!(TICKS + o == 148 + 112 * (set.count_ones() as usize), "used length == 148 + 112 x initialised ticks");
+}
+
+/// L2 history, Anchor: initialise 70, initialise 63 BELOW it (rotate_right moves slot 70's bytes), de-initialise 63 (rotate_left moves them back)
+// @verif prop=C13 tier=quick timeout=600
+#[kani::proof]
+#[kani::unwind(800)]
+#[kani::stub(<[u8]>::rotate_right, model_rotate_right)]
+#[kani::stub(<[u8]>::rotate_left, model_rotate_left)]
+#[kani::stub(alloc::fmt::format, stub_format)]
+#[kani::stub(<anchor_lang::error::Error as core::convert::From<std::io::Error>>::from, stub_err_from_io)]
+#[kani::stub(<anchor_lang::error::Error as core::convert::From<::whirlpool::errors::ErrorCode>>::from, stub_err_from_code)]
+fn c13_l2_anchor_history_below() {
+    seq_anchor(70, 63)
+}
+
+/// L2 history, Anchor: initialise 63, initialise 70 ABOVE it, de-initialise 70
+// @verif prop=C13 tier=quick timeout=600
+#[kani::proof]
+#[kani::unwind(800)]
+#[kani::stub(<[u8]>::rotate_right, model_rotate_right)]
+#[kani::stub(<[u8]>::rotate_left, model_rotate_left)]
+#[kani::stub(alloc::fmt::format, stub_format)]
+#[kani::stub(<anchor_lang::error::Error as core::convert::From<std::io::Error>>::from, stub_err_from_io)]
+#[kani::stub(<anchor_lang::error::Error as core::convert::From<::whirlpool::errors::ErrorCode>>::from, stub_err_from_code)]
+fn c13_l2_anchor_history_above() {
+    seq_anchor(63, 70)
+}
+
+/// L2 history, Pinocchio: initialise 70, initialise 63 BELOW it, de-initialise 63
+// @verif prop=C13,C12 tier=quick timeout=600
+#[kani::proof]
+#[kani::unwind(800)]
+#[kani::stub(<[u8]>::rotate_right, model_rotate_right)]
+#[kani::stub(<[u8]>::rotate_left, model_rotate_left)]
+#[kani::stub(alloc::fmt::format, stub_format)]
+#[kani::stub(<::whirlpool::pinocchio::errors::UnifiedError as core::convert::From<::whirlpool::errors::ErrorCode>>::from, stub_unified_from_code)]
+fn c13_l2_pino_history_below() {
+    seq_pino(70, 63)
+}
+
+/// L2 history, Pinocchio: initialise 63, initialise 70 ABOVE it, de-initialise 70
+// @verif prop=C13 tier=quick timeout=600
+#[kani::proof]
+#[kani::unwind(800)]
+#[kani::stub(<[u8]>::rotate_right, model_rotate_right)]
+#[kani::stub(<[u8]>::rotate_left, model_rotate_left)]
+#[kani::stub(alloc::fmt::format, stub_format)]
+#[kani::stub(<::whirlpool::pinocchio::errors::UnifiedError as core::convert::From<::whirlpool::errors::ErrorCode>>::from, stub_unified_from_code)]
+fn c13_l2_pino_history_above() {
+    seq_pino(63, 70)
+}
+
+/// twin: the false claim "byte_offset(slot) == slot for every bitmap" must be refuted (an initialised earlier slot adds 112)
+// @verif prop=C13 tier=quick timeout=300 twin
+#[kani::proof]
+#[kani::unwind(90)]
+#[kani::stub(alloc::fmt::format, stub_format)]
+#[kani::stub(<anchor_lang::error::Error as core::convert::From<::whirlpool::errors::ErrorCode>>::from, stub_err_from_code)]
+fn c13_twin_byte_offset_is_not_the_slot() {
+    let bitmap: u128 = kani::any();
+    let mut b: Box<[u8; BUF_LEN]> = Box::new([0u8; BUF_LEN]);
+    set_bitmap(&mut b, bitmap);
+    let ao = anchor(&b).verif_byte_offset(5);
+    let ok = matches!(&ao, Ok(x) if *x == 5);
+    core::mem::forget(ao);
+    assert!(ok, "twin: byte_offset(5) == 5 for every bitmap");
+}
